@@ -98,6 +98,15 @@ pub fn gen(rng: &mut Rng, tier: Tier, out: &mut Vec<String>) {
             let b: Vec<f64> = (0..n).map(|_| rng.f_general(3.0)).collect();
             out.push(format!("dotf {} {} {} {} general", w, wobs, wr_vec(&a), wr_vec(&b)));
         }
+        // ill-scaled pairs: a_i of magnitude 10^e against b_i of magnitude 10^-e, e in [-20, 20]: every product is O(1), so
+        // no term may be dropped however small its left (or right) factor is
+        for k in 0..extra {
+            let n = if k % 4 == 0 { 100 + rng.below(900) } else { 1 + rng.below(120) };
+            let es: Vec<f64> = (0..n).map(|_| (rng.unit() * 2.0 - 1.0) * 20.0).collect();
+            let a: Vec<f64> = es.iter().map(|e| (1.0 + rng.unit()) * 10f64.powf(*e) * if rng.chance(50) { -1.0 } else { 1.0 }).collect();
+            let b: Vec<f64> = es.iter().map(|e| (1.0 + rng.unit()) * 10f64.powf(-*e)).collect();
+            out.push(format!("dotf {} {} {} {} reciprocal-scale", w, wobs, wr_vec(&a), wr_vec(&b)));
+        }
         out.push(format!("dotf {} {} {} {} mismatch", w, wobs, gen_vec_str::<f64>(rng, 5, 0, 0), gen_vec_str::<f64>(rng, 4, 0, 0)));
     }
 }
